@@ -129,7 +129,7 @@ impl LoopCampaign {
 fn run_b(case: &CaseB, record: Option<u64>) -> Result<Outcome, String> {
   let c = case.clone();
   if case.hybrid {
-    match catch_unwind(AssertUnwindSafe(|| { let mut bl = crate::wiresim::PipeLayer::new(); let o = execute(&c, record, Some(&mut bl)); o })) { Ok(o) => Ok(o), Err(e) => Err(panic_msg(&e)) }
+    match catch_unwind(AssertUnwindSafe(|| { let mut bl = crate::wiresim::PipeLayer::new(c.has_tablet); let o = execute(&c, record, Some(&mut bl)); o })) { Ok(o) => Ok(o), Err(e) => Err(panic_msg(&e)) }
   } else {
     match catch_unwind(AssertUnwindSafe(|| execute(&c, record, None))) { Ok(o) => Ok(o), Err(e) => Err(panic_msg(&e)) }
   }
